@@ -3,9 +3,14 @@
    start and every iteration budget / tolerance.  Notation of Proofs/NnlsProofs.v:
    Gf UtU i j = UtU[i][j], bf UtM j i = UtM[i][j], colf V j i = V[i][j] (column j as a function),
    l1of o / l2of o = sparsity / ridge coefficient (0 when None), qp_f / qp_grad (Base/RSum.v) the
-   penalised objective  v'Gv/2 - b'v + l1 sum v + l2 sum v^2  and its gradient. *)
+   penalised objective  v'Gv/2 - b'v + l1 sum v + l2 sum v^2  and its gradient.
+   Round 5 added, for "run to convergence": HALS -- telescoped / summable steps, small step => approximately KKT, best-iterate
+   rate, the limit for the iterates and for hals_nnls itself (warm and cold start), objective gap from KKT residuals, tol = 0
+   runs all passes; FISTA -- descent of the projected step / first iteration / default step, the O(1/K^2) rate (any tol);
+   uniqueness of the KKT point; optimality at any bound epsilon; active set -- non-negativity on every exit and the exit
+   certificate under any sign-preserving rounding; the entry point fista with its argument handling (one refuted clause). *)
 From Coq Require Import List Arith Reals Lra QArith Qabs.
-From TLV Require Import Base.Ops Base.Tensor Base.RSum Model.Nnls Model.NnlsEntry Proofs.NnlsProofs Proofs.NnlsProofsDescent Proofs.NnlsProofsNz Proofs.NnlsProofsAdmm Proofs.NnlsProofsFista Proofs.NnlsProofsFista2 Proofs.NnlsProofsAset Proofs.NnlsProofsAsetCert Proofs.NnlsProofsAsetFull Proofs.NnlsProofsExamples Proofs.NnlsProofsConv Proofs.NnlsProofsStep Proofs.NnlsProofsEntry Proofs.NnlsProofsGap Proofs.NnlsProofsTol0 Proofs.NnlsProofsAsetRnd Proofs.NnlsProofsUnique Proofs.NnlsProofsLimit Proofs.NnlsProofsFistaRate.
+From TLV Require Import Base.Ops Base.Tensor Base.RSum Model.Nnls Model.NnlsEntry Proofs.NnlsProofs Proofs.NnlsProofsDescent Proofs.NnlsProofsNz Proofs.NnlsProofsAdmm Proofs.NnlsProofsFista Proofs.NnlsProofsFista2 Proofs.NnlsProofsAset Proofs.NnlsProofsAsetCert Proofs.NnlsProofsAsetFull Proofs.NnlsProofsExamples Proofs.NnlsProofsConv Proofs.NnlsProofsStep Proofs.NnlsProofsEntry Proofs.NnlsProofsGap Proofs.NnlsProofsTol0 Proofs.NnlsProofsAsetRnd Proofs.NnlsProofsUnique Proofs.NnlsProofsLimit Proofs.NnlsProofsFistaRate Proofs.NnlsProofsEps.
 Import ListNotations.
 Open Scope R_scope.
 
@@ -174,6 +179,33 @@ Theorem C13_kkt_optimal : forall (n : nat) (G : nat -> nat -> R) (b : nat -> R) 
   (forall i, (i < n)%nat -> 0 <= z i) -> qp_f n G b l1 l2 x <= qp_f n G b l1 l2 z.
 Proof. exact kkt_optimal. Qed.
 Print Assumptions C13_kkt_optimal.
+
+(* (iv') the bound EPSILON > 0 (round 5; hals_nnls: "V >= epsilon instead of V >= 0", fista's default epsilon = 1e-8): KKT at the
+   bound epsilon => global minimum over {v >= epsilon}; the fixed points of the HALS pass and of the FISTA step minimise
+   every column's objective over that set for EVERY epsilon (epsilon = 0: the theorems C13_kkt_optimal, C13_*_fixed_point_optimal) *)
+Theorem C13_kkt_optimal_eps : forall (n : nat) (G : nat -> nat -> R) (b : nat -> R) (l1 l2 eps : R) (x z : nat -> R),
+  (forall i j, G i j = G j i) -> (forall d, 0 <= quad n G d) -> 0 <= l2 ->
+  (forall i, (i < n)%nat -> eps <= x i /\ 0 <= qp_grad n G b l1 l2 x i /\ (x i - eps) * qp_grad n G b l1 l2 x i = 0) ->
+  (forall i, (i < n)%nat -> eps <= z i) -> qp_f n G b l1 l2 x <= qp_f n G b l1 l2 z.
+Proof. exact kkt_optimal_eps. Qed.
+Print Assumptions C13_kkt_optimal_eps.
+Theorem C13_hals_fixed_point_optimal_eps : forall (UtM UtU : list (list R)) (r n : nat) (o : @hopts R) (V : list (list R)),
+  wfm r r UtU -> wfm r n UtM -> h_nz o = false -> wfm r n V -> 0 <= l2of o ->
+  (forall i j, Gf UtU i j = Gf UtU j i) -> (forall d, 0 <= quad r (Gf UtU) d) ->
+  (forall k, (k < r)%nat -> Gf UtU k k <> 0 /\ 0 < Gf UtU k k + 2 * l2of o) ->
+  hals_pass Rops UtM UtU n o V = V ->
+  forall j z, (j < n)%nat -> (forall i, (i < r)%nat -> h_eps o <= z i) ->
+    qp_f r (Gf UtU) (bf UtM j) (l1of o) (l2of o) (colf V j) <= qp_f r (Gf UtU) (bf UtM j) (l1of o) (l2of o) z.
+Proof. exact hals_fixed_point_optimal_eps. Qed.
+Print Assumptions C13_hals_fixed_point_optimal_eps.
+Theorem C13_fista_fixed_point_optimal_eps : forall (UtM UtU : list (list R)) (r n : nat) (sp rd lr eps : R) (V : list (list R)),
+  wfm r r UtU -> wfm r n UtM -> 0 < lr -> 0 <= rd -> wfm r n V ->
+  (forall i j, Gf UtU i j = Gf UtU j i) -> (forall d, 0 <= quad r (Gf UtU) d) ->
+  fista_new Rops UtM UtU n true sp rd lr eps V = V ->
+  forall j z, (j < n)%nat -> (forall i, (i < r)%nat -> eps <= z i) ->
+    qp_f r (Gf UtU) (bf UtM j) sp rd (colf V j) <= qp_f r (Gf UtU) (bf UtM j) sp rd z.
+Proof. exact fista_fixed_point_optimal_eps. Qed.
+Print Assumptions C13_fista_fixed_point_optimal_eps.
 
 (* UNIQUENESS (round 5): for a well-conditioned problem -- the penalised form d'Gd/2 + ridge d'd positive definite -- two KKT
    points coincide, so "the same objective value as a reference solver" is "the same SOLUTION" *)
@@ -388,6 +420,29 @@ Theorem C13_hals_nnls_converges_to_kkt : forall (UtM UtU : list (list R)) (r n :
 Proof. exact hals_nnls_converges_to_kkt. Qed.
 Print Assumptions C13_hals_nnls_converges_to_kkt.
 
+(* ... and from the COLD start (V = None), for EVERY recorded answer of tl.solve: the clipped and rescaled start may be infeasible,
+   the first pass repairs it, from there the limit statement holds (budget m + 2) *)
+Theorem C13_hals_nnls_cold_converges_to_kkt : forall (UtM UtU : list (list R)) (r n : nat) (o : @hopts R),
+  wfm r r UtU -> wfm r n UtM -> h_nz o = false ->
+  (forall i j, Gf UtU i j = Gf UtU j i) ->
+  (forall k, (k < r)%nat -> Gf UtU k k <> 0 -> 0 < Gf UtU k k + 2 * l2of o) ->
+  (forall k, (k < r)%nat -> Gf UtU k k <> 0) ->
+  h_eps o = 0 -> 0 <= l2of o -> (forall d, 0 <= quad r (Gf UtU) d) ->
+  forall X : list (list R),
+  (forall k j, (k < r)%nat -> (j < n)%nat ->
+     0 <= mget Rops X k j /\ 0 <= qp_grad r (Gf UtU) (bf UtM j) (l1of o) (l2of o) (colf X j) k /\
+     mget Rops X k j * qp_grad r (Gf UtU) (bf UtM j) (l1of o) (l2of o) (colf X j) k = 0) ->
+  forall w : R, 0 < w -> (forall l, (l < r)%nat -> w <= Gf UtU l l / 2 + l2of o) ->
+  forall sol : list (list R), wfm r n sol ->
+  forall eps, 0 < eps -> exists N, forall m, (N <= m)%nat ->
+    exists Wm, hals_nnls Rops UtM UtU n None sol (S (S m)) 0 o = Ok Wm /\
+    forall k j, (k < r)%nat -> (j < n)%nat ->
+      let g := qp_grad r (Gf UtU) (bf UtM j) (l1of o) (l2of o) (colf Wm j) k in
+      exists D, 0 <= D /\ 0 <= mget Rops Wm k j /\ - D <= g /\ Rabs (mget Rops Wm k j * g) <= mget Rops Wm k j * D /\
+                w * D ^ 2 <= rsum r (fun l => Gf UtU k l ^ 2) * eps.
+Proof. exact hals_nnls_cold_converges_to_kkt. Qed.
+Print Assumptions C13_hals_nnls_cold_converges_to_kkt.
+
 (* APPROXIMATE KKT => NEAR-OPTIMAL OBJECTIVE (the clause "hence attain the same objective value as a reference solver",
    quantitatively): UtU symmetric PSD, ridge >= 0; a point w with gradient >= -d_i and complementarity |w_i g_i| <= c_i has
    objective at most sum_i (c_i + d_i z_i) above that of ANY non-negative z -- in particular above the minimum, or a
@@ -566,17 +621,18 @@ Print Assumptions C13_fista_first_iteration_descent.
 
 (* THE O(1/K^2) RATE OF FISTA (Beck & Teboulle 2009, Thm 4.4) for the model's accelerated loop (round 5; induction over the
    iterations with the Beck-Teboulle potential 2 lr t_k^2 (F(x_k) - F(s)) + |t_{k+1} x_update - (t_{k+1} - 1) x_k - s|^2).
-   Step lr <= 1/L (stated as before), UtU symmetric PSD, ridge >= 0, column j of the start feasible, ANY momentum sequence with
-   t_0 = 0, t_1 = 1, t_{k+1}^2 - t_{k+1} = t_k^2, t_{k+1} >= 1 (coefficients beta_k = (t_{k+1} - 1) / t_{k+2}: `beta_of t k`),
-   the loop run without its stopping rule (fista_run = fista with tol = 0, C13_fista_tol0_runs_all):
-       2 lr t_K^2 (F_j(x_K) - F_j(s)) <= |x_0[:,j] - s|^2     for EVERY feasible comparison point s. *)
+   Step lr <= 1/L (stated as before), UtU symmetric PSD, ridge >= 0, ANY start (feasible or not: the first iteration does not
+   extrapolate), ANY bound epsilon, ANY momentum sequence with t_0 = 0, t_1 = 1, t_{k+1}^2 - t_{k+1} = t_k^2, t_{k+1} >= 1
+   (coefficients beta_k = (t_{k+1} - 1) / t_{k+2}: `beta_of t k`), the loop run without its stopping rule (fista_run = fista with
+   tol = 0, C13_fista_tol0_runs_all):
+       2 lr t_K^2 (F_j(x_K) - F_j(s)) <= |x_0[:,j] - s|^2     for EVERY comparison point s >= epsilon. *)
 Theorem C13_fista_rate : forall (UtM UtU : list (list R)) (r n : nat) (sp rd lr eps : R) (j : nat),
   wfm r r UtU -> wfm r n UtM -> (j < n)%nat -> (forall i k, Gf UtU i k = Gf UtU k i) -> (forall d, 0 <= quad r (Gf UtU) d) ->
   0 <= rd -> 0 < lr ->
   (forall d : nat -> R, lr * (quad r (Gf UtU) d + 2 * rd * rsum r (fun i => (d i)^2)) <= rsum r (fun i => (d i)^2)) ->
   forall t : nat -> R, (forall k, t (S k) ^ 2 - t (S k) = t k ^ 2) -> (forall k, 1 <= t (S k)) ->
   forall s : nat -> R, (forall i, (i < r)%nat -> eps <= s i) ->
-  forall (K : nat) (x0 : list (list R)), t 0%nat = 0 -> t 1%nat = 1 -> wfm r n x0 -> (forall i, (i < r)%nat -> eps <= mget Rops x0 i j) ->
+  forall (K : nat) (x0 : list (list R)), t 0%nat = 0 -> t 1%nat = 1 -> wfm r n x0 ->
   2 * lr * t K ^ 2 * (qp_f r (Gf UtU) (bf UtM j) sp rd (colf (fista_run UtM UtU n true sp rd lr eps (map (beta_of t) (seq 0 K)) x0 x0) j)
                       - qp_f r (Gf UtU) (bf UtM j) sp rd s)
   <= rsum r (fun i => (mget Rops x0 i j - s i)^2).
@@ -584,22 +640,59 @@ Proof. exact fista_rate. Qed.
 Print Assumptions C13_fista_rate.
 
 (* ... for the function `fista` itself with the CODE'S momentum sequence tseq (t_0 = 0, t_{k+1} = (1 + sqrt(1 + 4 t_k^2)) / 2, so
-   t_1 = 1 = momentum_old and beta_k = (momentum_old - 1) / momentum), tol = 0, epsilon = 0, against a KKT point X (the optimum):
-   after K >= 1 iterations the objective gap of column j is >= 0 and at most 2 |x_0 - X|^2 / (lr (K+1)^2)  (t_K >= (K+1)/2):
-   "run to convergence, fista attains the objective value of the reference solution", with a rate. *)
-Theorem C13_fista_rate_optimum : forall (UtM UtU : list (list R)) (r n : nat) (sp rd lr : R) (j : nat) (X : list (list R)) (K' : nat) (x0 : list (list R)),
+   t_1 = 1 = momentum_old and beta_k = (momentum_old - 1) / momentum), tol = 0, any epsilon and any start, against a KKT point X at
+   the bound epsilon (the optimum over {v >= epsilon}): after K >= 1 iterations the objective gap of column j is >= 0 and at
+   most 2 |x_0 - X|^2 / (lr (K+1)^2)  (t_K >= (K+1)/2): "run to convergence, fista attains the objective value of the
+   reference solution", with a rate. *)
+Theorem C13_fista_rate_optimum : forall (UtM UtU : list (list R)) (r n : nat) (sp rd lr eps : R) (j : nat) (X : list (list R)) (K' : nat) (x0 : list (list R)),
   wfm r r UtU -> wfm r n UtM -> (j < n)%nat -> (forall i k, Gf UtU i k = Gf UtU k i) -> (forall d, 0 <= quad r (Gf UtU) d) ->
   0 <= rd -> 0 < lr ->
   (forall d : nat -> R, lr * (quad r (Gf UtU) d + 2 * rd * rsum r (fun i => (d i)^2)) <= rsum r (fun i => (d i)^2)) ->
-  (forall i, (i < r)%nat -> 0 <= mget Rops X i j /\ 0 <= qp_grad r (Gf UtU) (bf UtM j) sp rd (colf X j) i /\
-                            mget Rops X i j * qp_grad r (Gf UtU) (bf UtM j) sp rd (colf X j) i = 0) ->
-  wfm r n x0 -> (forall i, (i < r)%nat -> 0 <= mget Rops x0 i j) ->
+  (forall i, (i < r)%nat -> eps <= mget Rops X i j /\ 0 <= qp_grad r (Gf UtU) (bf UtM j) sp rd (colf X j) i /\
+                            (mget Rops X i j - eps) * qp_grad r (Gf UtU) (bf UtM j) sp rd (colf X j) i = 0) ->
+  wfm r n x0 ->
   let K := S K' in
-  let xK := fista Rops UtM UtU n true sp rd lr 0 0 x0 (map (beta_of tseq) (seq 0 K)) in
+  let xK := fista Rops UtM UtU n true sp rd lr 0 eps x0 (map (beta_of tseq) (seq 0 K)) in
   let gap := qp_f r (Gf UtU) (bf UtM j) sp rd (colf xK j) - qp_f r (Gf UtU) (bf UtM j) sp rd (colf X j) in
   0 <= gap /\ lr * (INR K + 1)^2 * gap <= 2 * rsum r (fun i => (mget Rops x0 i j - mget Rops X i j)^2).
 Proof. exact fista_rate_optimum. Qed.
 Print Assumptions C13_fista_rate_optimum.
+
+(* ... and for ANY tol: fista returns the iterate m at which its stopping rule fired or the budget ended (1 <= m <= n_iter_max),
+   and the bound holds with that m: the returned point of EVERY such call has objective gap <= 2 |x_0 - X|^2 / (lr (m+1)^2) *)
+Theorem C13_fista_rate_any_tol : forall (UtM UtU : list (list R)) (r n : nat) (sp rd lr tol eps : R) (j : nat) (X : list (list R)) (K' : nat) (x0 : list (list R)),
+  wfm r r UtU -> wfm r n UtM -> (j < n)%nat -> (forall i k, Gf UtU i k = Gf UtU k i) -> (forall d, 0 <= quad r (Gf UtU) d) ->
+  0 <= rd -> 0 < lr ->
+  (forall d : nat -> R, lr * (quad r (Gf UtU) d + 2 * rd * rsum r (fun i => (d i)^2)) <= rsum r (fun i => (d i)^2)) ->
+  (forall i, (i < r)%nat -> eps <= mget Rops X i j /\ 0 <= qp_grad r (Gf UtU) (bf UtM j) sp rd (colf X j) i /\
+                            (mget Rops X i j - eps) * qp_grad r (Gf UtU) (bf UtM j) sp rd (colf X j) i = 0) ->
+  wfm r n x0 ->
+  let y := fista Rops UtM UtU n true sp rd lr tol eps x0 (map (beta_of tseq) (seq 0 (S K'))) in
+  let gap := qp_f r (Gf UtU) (bf UtM j) sp rd (colf y j) - qp_f r (Gf UtU) (bf UtM j) sp rd (colf X j) in
+  exists m, (1 <= m <= S K')%nat /\ 0 <= gap /\ lr * (INR m + 1)^2 * gap <= 2 * rsum r (fun i => (mget Rops x0 i j - mget Rops X i j)^2).
+Proof. exact fista_rate_any_tol. Qed.
+Print Assumptions C13_fista_rate_any_tol.
+
+(* THE CALL AS A USER WRITES IT (entry point, Model/NnlsEntry.v): default step lr=None with sigma bounding the Rayleigh quotient of
+   UtU, any start (x=None: zeros, infeasible for the default epsilon = 1e-8), any tol / epsilon / sparsity_coef (None -> 0), a number
+   as ridge_coef, the code's momentum, n_iter_max = K'+1: the call returns and the objective gap of the returned point in column j
+   is at most 2 (sigma + 2 ridge) |start - X|^2 / (m+1)^2 for the iteration m >= 1 at which it stopped *)
+Theorem C13_fista_call_rate : forall (UtM UtU : list (list R)) (r n : nat) (sp : option R) (rd sigma tol eps : R)
+  (x0 : option (list (list R))) (K' j : nat) (X : list (list R)),
+  wfm r r UtU -> wfm r n UtM -> (j < n)%nat -> (forall i k, Gf UtU i k = Gf UtU k i) -> (forall d, 0 <= quad r (Gf UtU) d) ->
+  0 <= rd -> 0 < sigma + 2 * rd ->
+  (forall d : nat -> R, quad r (Gf UtU) d <= sigma * rsum r (fun i => (d i)^2)) ->
+  match x0 with Some x => wfm r n x | None => True end ->
+  let spv := match sp with Some s => s | None => 0 end in
+  let start := match x0 with Some x => x | None => zeros_like Rops UtM end in
+  (forall i, (i < r)%nat -> eps <= mget Rops X i j /\ 0 <= qp_grad r (Gf UtU) (bf UtM j) spv rd (colf X j) i /\
+                            (mget Rops X i j - eps) * qp_grad r (Gf UtU) (bf UtM j) spv rd (colf X j) i = 0) ->
+  exists W m, fista_call Rops UtM UtU n true sp (Some rd) None sigma tol eps x0 (map (beta_of tseq) (seq 0 (S K'))) = Ok W /\
+    (1 <= m <= S K')%nat /\
+    let gap := qp_f r (Gf UtU) (bf UtM j) spv rd (colf W j) - qp_f r (Gf UtU) (bf UtM j) spv rd (colf X j) in
+    0 <= gap /\ (INR m + 1)^2 * gap <= 2 * (sigma + 2 * rd) * rsum r (fun i => (mget Rops start i j - mget Rops X i j)^2).
+Proof. exact fista_call_rate. Qed.
+Print Assumptions C13_fista_call_rate.
 
 (* the code's momentum sequence meets the hypotheses of C13_fista_rate (non-vacuity of the sequence hypotheses) *)
 Example C13_fista_momentum_sequence : tseq 0 = 0 /\ tseq 1 = 1 /\
